@@ -155,6 +155,10 @@ class Fail(Exception):
     pass
 
 
+class _TooLarge(Exception):
+    """A non-standard dealer whose randomness space is too large to enumerate in this cell: cell skipped."""
+
+
 class _Odometer:
     """Stand-in for `secrets`: replays a path of (answer, bound) pairs, extends it with answer 0, and
     `advance()` moves to the next path in lexicographic order.  Makes no assumption on the number of calls
@@ -180,6 +184,17 @@ class _Odometer:
             self.path.append([0, k])
         self.pos += 1
         return a
+
+    # the other entry points of the `secrets` module, modelled through randbelow so that a dealer which draws its
+    # coefficients differently is still enumerated exactly (each path then carries the weight prod(1/bound))
+    def randbits(self, k):
+        return self.randbelow(1 << k) if k else 0
+
+    def choice(self, seq):
+        return seq[self.randbelow(len(seq))]
+
+    def token_bytes(self, n=32):
+        return self.randbelow(256 ** n).to_bytes(n, 'little') if n else b''
 
     def signature(self):
         return [b for _, b in self.path[:self.pos]]
@@ -239,19 +254,55 @@ def _check_cell(case):
         old = thresha.secrets
         thresha.secrets = odo
         results = []
+        weights = []
+        nonstandard = False
         try:
             while True:
                 res = _deal(F, q, variant, sin, sec, t, m, odo)
                 sig = odo.signature()
                 if sig != want_sig:
-                    raise Fail(f'call signature: dealing {n} secret(s) with t={t} over a field of order {q} made '
-                               f'{len(sig)} call(s) of secrets.randbelow with bounds {sig[:12]}; expected exactly '
-                               f't*n={t * n} calls, each with bound {q} (secrets {sec}, variant {variant})')
+                    # not the documented way of drawing (t calls of randbelow(|F|) per secret): still enumerate the
+                    # dealer's randomness completely, each path weighted by the product of 1/bound, and judge only
+                    # what the statement says (exact uniformity of every coalition's view)
+                    nonstandard = True
+                    space = 1
+                    for b in sig:
+                        space *= b
+                    if space > 300000:
+                        raise _TooLarge(f'{len(sig)} draws with bounds {sig[:6]} span {space} outcomes')
+                weights.append(sig)
                 results.append(res)
                 if not odo.advance():
                     break
         finally:
             thresha.secrets = old
+        if nonstandard:
+            from fractions import Fraction
+            wts = []
+            for sg in weights:
+                w = Fraction(1)
+                for b in sg:
+                    w /= b
+                wts.append(w)
+            if sum(wts) != 1:
+                raise RuntimeError('enumeration of a non-standard dealer did not cover probability 1')
+            for C in coalitions:
+                cols = [i * n + h for i in C for h in range(n)]
+                dist = {}
+                for res, w in zip(results, wts):
+                    key = tuple(res[c] for c in cols)
+                    dist[key] = dist.get(key, 0) + w
+                size = q ** len(cols)
+                if len(dist) != size or any(v != Fraction(1, size) for v in dist.values()):
+                    raise Fail(f'the view of coalition {[i + 1 for i in C]} (parties) on secret(s) {sec} is not uniform '
+                               f'({len(dist)} of {size} share tuples occur; dealer draws randomness with bounds '
+                               f'{weights[0][:8]}, t={t}, m={m}, variant {variant})')
+                key = ('w',) + tuple(C)
+                if key in views and views[key] != dist:
+                    raise Fail(f'the view of coalition {[i + 1 for i in C]} differs between secrets')
+                views[key] = dist
+            runs_total += len(results)
+            continue
         if len(results) != q ** (t * n):
             raise Fail(f'enumeration produced {len(results)} runs, expected {q ** (t * n)}')
         runs_total += len(results)
@@ -286,6 +337,8 @@ def run_case(case):
     saved = thresha.secrets
     try:
         runs, _ = _check_cell(case)
+    except _TooLarge:
+        return Outcome(True, skipped=True, nontrivial=False, labels=labels + ['dealer-randomness-space-too-large'])
     except Fail as e:
         return Outcome(False, f'{spec}: {e}\ncase={str(case)[:1200]}', labels=labels)
     except Exception:
